@@ -225,7 +225,7 @@ def check_case(ctx, case):
                 sizes_by_pos[i] = tuple(lf[1])
     nontrivial = len(trees) >= 2 and len(set(sizes_by_pos.values())) >= 2
     ctx.note([spec, wrap, case["trees"], plain], nontrivial,
-             classes=[f"wrap-{wrap}", f"ntrees-{len(trees)}", f"verdict-{'+'.join(sorted(allowed_all))}", f"mutation-{case['mutation']}"] + (["plain-same-name"] if plain else []) + (["plain-variadic"] if plain and len(plain) > 3 and "*" in plain[3] else []) + (["alt-last"] if alt_last else []) + (["enum-dict-keys"] if case.get("enum_keys") and len(trees) >= 2 and "dict" in str(case["trees"][1]) else []) + (["aliased-leaves"] if case.get("alias") else []),
+             classes=[f"wrap-{wrap}", f"ntrees-{len(trees)}", f"verdict-{'+'.join(sorted(allowed_all))}", f"mutation-{case['mutation']}"] + (["plain-same-name"] if plain else []) + (["symbolic-axis-over-plain-name"] if any(t.base_kind == "sym" for t in toks) else []) + (["plain-variadic"] if plain and len(plain) > 3 and "*" in plain[3] else []) + (["alt-last"] if alt_last else []) + (["enum-dict-keys"] if case.get("enum_keys") and len(trees) >= 2 and "dict" in str(case["trees"][1]) else []) + (["aliased-leaves"] if case.get("alias") else []),
              sample={"spec": spec, "wrap": wrap, "trees": case["trees"], "plain": plain, "accepted": sorted(allowed_all)})
 
 
@@ -250,6 +250,10 @@ def check_misuse(ctx, case):
         # the same ambiguity, but the first leaf of the inner tree is accepted without its '?' axis ever being looked at (an int)
         with jaxtyped("context"):
             got = obs.verdict((7, a3, a4), PyTree[PyTree[Union[int, base], "S"], "T"])
+    elif form == "two-structures-sibling":
+        # ... and the inner structured PyTree carrying the '?' axis comes after a sibling structured PyTree that has been checked
+        with jaxtyped("context"):
+            got = obs.verdict((1, a3), PyTree[tuple[PyTree[int, "S"], PyTree[base, "R"]], "T"])
     elif form in ("prefix-structure", "suffix-structure", "composite-structure"):
         # exactly ONE structured PyTree encloses the axis, its structure is written in composite / prefix / suffix form: that is a
         # legitimate use, the check must answer (True here: the '?' axis may differ per leaf), not raise AnnotationError
@@ -303,7 +307,7 @@ def check_misuse(ctx, case):
 
 
 @st.composite
-def q_spec(draw):
+def q_spec(draw, sym_names=()):
     n = draw(st.integers(1, 3))
     qpos = draw(st.integers(0, n - 1))
     toks = []
@@ -316,7 +320,7 @@ def q_spec(draw):
             else:
                 toks.append(dl.Token(draw(st.sampled_from(["?", "?", "#?", "?#"])), "name", draw(st.sampled_from(["foo", "a"]))))
         else:
-            t = draw(gd.legal_token(allow_multi=not multi_used, allow_q=True, names=["foo", "a"], vnames=["v"]))
+            t = draw(gd.legal_token(allow_multi=not multi_used, allow_q=True, names=["foo", "a"], vnames=["v"], sym_names=sym_names))
             multi_used = multi_used or t.is_multi()
             toks.append(t)
     return toks
@@ -324,7 +328,12 @@ def q_spec(draw):
 
 @st.composite
 def c16_case(draw):
-    toks = draw(q_spec())
+    symplain = None
+    if draw(st.integers(0, 3)) == 0:
+        # a plain-axis parameter checked first, and symbolic axes over its name in the leaf spec: they always mean the plain axis,
+        # whatever '?' axis of the same name the leaf has
+        symplain = ["before", draw(st.sampled_from(["foo", "a"])), draw(st.sampled_from([2, 3, 5]))]
+    toks = draw(q_spec(sym_names=[symplain[1]] if symplain else ()))
     meanings = [t.meaning() for t in toks]
     wrap = draw(st.sampled_from(WRAPS))
     allow = ("tuple", "list", "dict") if wrap in ("nested", "tuple", "optional", "ntfield") else ("tuple", "list", "dict", "none")
@@ -334,6 +343,8 @@ def c16_case(draw):
     nl = len(pt.leaves(base))
     ntrees = draw(st.sampled_from([2, 2, 3, 1]))
     m = dl.MCtx()
+    if symplain:
+        m = dl.match([dl.Token("", "name", symplain[1]).meaning()], (symplain[2],), m).ctx
     trees = []
     int_positions = set()
     if wrap == "union":
@@ -382,8 +393,8 @@ def c16_case(draw):
                 trees[k] = gt.relabel(trees[k], iter(lv))
         elif mutation == "add-leaf":
             trees[k] = ("tuple", [trees[k], ("leaf", lv[arr_idx[0]] if arr_idx else [2])])
-    plain = None
-    if draw(st.integers(0, 2)) == 0:
+    plain = symplain
+    if plain is None and draw(st.integers(0, 2)) == 0:
         plain = [draw(st.sampled_from(["before", "after"])), draw(st.sampled_from(["foo", "a"])), draw(st.sampled_from([2, 3, 5]))]
         vnames = sorted({t.base for t in toks if t.base_kind == "name" and "*" in t.mods})
         if vnames and draw(st.integers(0, 2)) != 0:
@@ -401,7 +412,7 @@ def run(ctx):
     ctx.hyp(cases, max_examples=ctx.n(500, 3000))
 
     @given(st.fixed_dictionaries({
-        "misuse": st.sampled_from(["bare", "no-structure", "two-structures", "decorated-no-structure", "two-structures-late", "prefix-structure", "suffix-structure", "composite-structure"]),
+        "misuse": st.sampled_from(["bare", "no-structure", "two-structures", "decorated-no-structure", "two-structures-late", "two-structures-sibling", "prefix-structure", "suffix-structure", "composite-structure"]),
         "spec": st.sampled_from(["?foo", "*?foo", "a ?foo", "?a ?foo", "#?foo 3", "?foo ..."]),
         "checker": st.sampled_from(["typeguard", "beartype"]),
     }))
